@@ -234,3 +234,88 @@ class TDSetState(_SetState):
     properties = ("C14",)
     maker = _mk(_make_dict)
     vfield = "key_validator"
+
+
+# ------------------------------------------------------------------------------------------------------------------
+# the owner-bound container objects: TraitListObject / TraitDictObject / TraitSetObject.__deepcopy__
+# ------------------------------------------------------------------------------------------------------------------
+class _OwnedDeepCopy(Contract):
+    """<Container>Object.__deepcopy__: ONE construction of the same class from (self.trait, None, self.name, <the deep copies
+    of the current contents>) -- the constructor validates length bounds and items against the WHOLE value, so the copy must be
+    built from the complete copied contents in one step (an empty or partial start can be refused by the trait's bounds, and
+    copy_traits swallows that refusal: the attribute would silently fall back to its default) -- detached from any owner
+    (object None: notifiers are transient), the original untouched."""
+    properties = ("C14",)
+    cls_name = None
+    assumptions = ("A-PY", "copy.deepcopy of an item is an opaque pure function; the constructor is a summary (own contract: TraitListObject.__init__ ...)")
+    undecided_probe = dict(harness="hastraits", family="owned_container_copy")
+
+    def configure(self, cx, I, ov):
+        self.trait = z3.Const("trait", Val)
+        self.name = z3.String("name")
+
+        def hook(I2, name, args, st, k):
+            if name != "copy.deepcopy":
+                return None
+            x = args[0]
+            st = st.gset("copied", st.ghost.get("copied", 0) + 1)
+            if isinstance(x, (VElem, VConst)):
+                return k(VElem(DC(x.t)), st)
+            if isinstance(x, VTuple):
+                return k(VTuple([VElem(DC(as_val(cx, i, st))) for i in x.items]), st)
+            return None
+        cx.copy_hook = hook
+
+        def construct_hook(I2, cname, args, kwargs, st, k):
+            if cname != self.cls_name:
+                return None
+            r = VRef(cx.new_oid())
+            st2 = st.put(r.oid, HObj("obj", None, cname, {}))
+            return k(r, st2.gset("constructed", tuple(st2.ghost.get("constructed", ())) + ((r, tuple(args), dict(kwargs)),)))
+        cx.construct_hook = construct_hook
+
+    def covers(self, cx, ov, info):
+        return [("returns-a-copy", lambda k, p, s: k == "return")]
+
+    def base_post(self, cx, info, kind, payload, st):
+        if kind == "raise":
+            return None, [("exc-free", z3.BoolVal(False), dict(exception="%s %r" % (payload.cname or payload.sym, payload.origin)))]
+        made = st.ghost.get("constructed", ())
+        out = [("post:exactly-one-construction-of-the-same-class", z3.BoolVal(len(made) == 1))]
+        if len(made) != 1:
+            return None, out
+        r, args, kw = made[0]
+        allargs = dict(zip(("trait", "object", "name", "value"), args))
+        allargs.update(kw)
+        out.append(("post:the-result-is-that-new-object", z3.BoolVal(isinstance(payload, VRef) and payload.oid == r.oid)))
+        t, o, n = allargs.get("trait"), allargs.get("object"), allargs.get("name")
+        out.append(("post:bound-to-the-same-trait-and-name-and-to-no-owner", z3.And(
+            as_val(cx, t, st) == self.trait if t is not None else z3.BoolVal(False), z3.BoolVal(isinstance(o, VNone)),
+            n.t == self.name if isinstance(n, VStr) and n.t is not None else z3.BoolVal(False))))
+        return allargs.get("value"), out
+
+
+@register
+class TLODeepCopy(_OwnedDeepCopy):
+    path = "traits/trait_list_object.py"
+    qualname = "TraitListObject.__deepcopy__"
+    cls_name = "TraitListObject"
+
+    def setup(self, cx, I, ov):
+        st, self_ref, s0, V = make_list_self(cx, "TraitListObject", {"trait": VElem(self.trait), "name": VStr(self.name)})
+        return st, [self_ref, VElem(z3.Const("memo", Val))], {}, dict(s0=s0, self_ref=self_ref, witness=dict(items=s0),
+                                                                      concretise=lambda m: dict(harness="hastraits", family="owned_container_copy"))
+
+    def post(self, cx, I, ov, info, kind, payload, st):
+        value, out = self.base_post(cx, info, kind, payload, st)
+        s0 = info["s0"]
+        if value is not None:
+            j = z3.Int("j!odc")
+            sq = st.heap[value.oid].payload if isinstance(value, VRef) and st.heap[value.oid].kind == "list" else None
+            out.append(("post:constructed-from-the-deep-copies-of-ALL-current-items-in-order", z3.And(z3.Length(sq) == z3.Length(s0), z3.ForAll(
+                [j], z3.Implies(z3.And(0 <= j, j < z3.Length(s0)), sq[j] == DC(s0[j])))) if sq is not None else z3.BoolVal(False)))
+        if kind == "return":
+            out.append(("frame:original-unchanged", st.heap[info["self_ref"].oid].payload == s0))
+            out.append(("post:nothing-is-added-to-the-copy-after-its-construction", z3.BoolVal(
+                isinstance(payload, VRef) and st.heap[payload.oid].kind == "obj" and not st.ghost.get("mutated_after"))))
+        return out
